@@ -51,10 +51,13 @@ def run(ctx):
             for rep in range(1 if quick else 3):
                 T = target(rng, n, rho, sp)
                 seed = int(rng.integers(1 << 30))
-                I, idx, idxm = teneva.sample_tt(n, m, seed=seed)
+                # "all seeds of the sample generator": integer seeds, generator objects (the designs of the modes are then
+                # drawn from one continuing stream) and no seed at all
+                skind = ['int', 'generator'][(rep + sp + len(n) + m + cap) % 2]      # (no seed at all would make the verdict depend on unseeded draws)
+                I, idx, idxm = teneva.sample_tt(n, m, seed=seed if skind == 'int' else np.random.default_rng(seed) if skind == 'generator' else None)
                 y = teneva.get_many(T, I)
                 e_abs = 1e-10 * min(1., 2.0 ** sp)        # the accuracy is absolute: it follows the data downwards
-                what = 'svd_incomplete(n=%s, target ranks %s, m=%d, cap=%d, scale 2^%d, seed %d)' % (n, rho, m, cap, sp, seed)
+                what = 'svd_incomplete(n=%s, target ranks %s, m=%d, cap=%d, scale 2^%d, %s seed %d)' % (n, rho, m, cap, sp, skind, seed)
                 try:
                     Z = teneva.svd_incomplete(I, y, idx, idxm, e_abs, cap)
                 except Exception as ex:
